@@ -38,6 +38,16 @@ ASSUMPTIONS = [
     "promise for all of its glyphs (subset and WOFF2 reconstruction; not for instances)",
     "prince::subset of a CFF/CFF2 source returns a bare CFF table: judged as a table set whose only partner is the glyph "
     "list (charstring count = number of ids, every charstring visited by allsorts)",
+    "derived maxima / minima (hhea.advanceWidthMax, min side bearings, xMaxExtent, head bounding box, maxp maxima, "
+    "vhea.advanceHeightMax): equality with the OpenType definition is demanded where the operation recomputes the field "
+    "(instance: advanceWidthMax, head bbox of glyf fonts); where subset copies the field from a source that kept the "
+    "bound, the bound (max fields >= / min fields <= the measured value) is demanded, not equality "
+    "(Dev_CopiedMaximumIsBound); fields copied while their data changes (instance: side bearing minima, maxp) are "
+    "measured only; OS/2 is not among the tables the property lists and subset / instance do not recompute its "
+    "first / last character indices",
+    "the structure of a written CFF table (every INDEX, charset and FDSelect coverage, Private DICT extents) is followed "
+    "by an independent reader in the harness; SfntWrite!CffStructOK judges the facts; any offSize that holds the "
+    "offsets is accepted (Dev_OffSize)",
 ]
 
 # families of behaviour that every run must have exercised (measured by the harness on the judged outputs)
@@ -56,13 +66,67 @@ REQUIRED_FAMILIES = [
     "subset.comp:scale", "subset.comp:xyscale", "subset.comp:2x2", "subset.comp:instr", "subset.comp:multi",
     "subset.loca:short", "subset.loca:long", "subset.src:nhm<n", "subset.src:lsb=xMin", "subset.src:cff",
     "subset.src:cff2", "subset.src:glyf", "prince-cff.src:cff", "prince-cff.src:cff2",
+    # (4) size boundaries of the INDEXes a CFF writer rebuilds: PLANNED from the byte lengths of the source objects
+    # (subset sum, harness inputs) ...
+] + ["cffb.plan.synth.%s=%d" % (ix, t) for ix in ("charstrings", "gsubr", "lsubr") for t in (254, 255, 256, 65534, 65535, 65536)] + [
+    "cffb.plan.repo.charstrings=254", "cffb.plan.repo.charstrings=255", "cffb.plan.repo.charstrings=256",
+    "cffb.plan.synth.topdict-sweep", "cffb.plan.synth.glyphs=240", "cffb.plan.synth.glyphs=300",
+    # ... and MEASURED on the written table by the independent reader
+] + ["subset.out:cff-index.%s.data=%d" % (ix, t) for ix in ("charstrings", "gsubr", "lsubr") for t in (254, 255, 256, 65534, 65535, 65536)] + [
+    "subset.out:cff-index.top.data=254", "subset.out:cff-index.top.data=255", "subset.out:cff-index.top.data=256",
+    "subset.out:cff-cid", "subset.out:cff-charset:ISOAdobe", "subset.out:cff-charset:format0",
+    # (5) derived maxima / minima: judged fields were present, and instances moved them both ways
+    "instance.derived:hhea.advanceWidthMax:smaller-than-source", "instance.derived:hhea.advanceWidthMax:larger-than-source",
+    "instance.derived:head.xMax:larger-than-source", "instance.derived:head.xMax:smaller-than-source",
+    "instance.derived:head.yMin:smaller-than-source", "instance.derived:head.yMax:larger-than-source",
+    "subset.derived:hhea.advanceWidthMax:smaller-than-source", "subset.derived:hhea.minLeftSideBearing",
+    "subset.derived:hhea.xMaxExtent", "subset.derived:head.xMin", "subset.derived:head.yMax:smaller-than-source",
+    "subset.derived:maxp.maxPoints:smaller-than-source", "subset.derived:maxp.maxContours",
+    "subset.derived:maxp.maxComponentElements", "subset.derived:maxp.maxComponentDepth:smaller-than-source",
 ]
 
 
-def _detail_key(ev, violated=()):
+def _derived_classes(x, names):
+    """Failing derived fields as key classes (never a value). The four fields of the head bounding box are one
+    thing; a box that is the union of the glyph boxes AND the origin is the named wrong reading (union seeded with
+    the empty rectangle at 0,0), anything else is not."""
+    ds = {d["name"]: d for d in x.get("derived", [])}
+    head = [n for n in names if n.startswith("head.")]
+    cls = []
+    if head:
+        def with_origin(d):
+            return d["field"] == (min(d["measured"], 0) if d["rel"] == "min" else max(d["measured"], 0))
+        cls.append("head.bbox" + ("=definition+origin" if all(n in ds and with_origin(ds[n]) for n in head) else ""))
+    return cls + [n for n in names if not n.startswith("head.")]
+
+
+def _detail_key(ev, violated=(), m=None):
     """Discriminate the failing shape so that a known finding hides only itself."""
     x = ev["o"].get("cross", {})
     parts = []
+    m = m or {}
+    if "DerivedOK" in violated:
+        parts.append("derived=%s:%s" % ("/".join(m.get("derived_classes") or ["?"]),
+                                        "recomputed!=definition" if x.get("op") == "instance" else "copied-bound-lost"))
+    if "VmtxOK" in violated:
+        parts.append("vmtx<numOfLongVerMetrics,numGlyphs")
+    if "CffStructOK" in violated:
+        w = x.get("cffw", {})
+        why = []
+        if not w.get("walked"):
+            why.append("walk:" + str(w.get("why")))
+        if m.get("cffidx") and w.get("walked"):
+            why.append("index:" + "/".join(sorted(set(n.rstrip("0123456789") for n in m["cffidx"]))))
+        if w.get("walked"):
+            if x.get("has", {}).get("maxp") and w.get("numGlyphs") != x.get("numGlyphs"):
+                why.append("charstrings!=numGlyphs")
+            if not w.get("charsetOk"):
+                why.append("charset:%s-does-not-cover-the-glyphs" % w.get("charset"))
+            if w.get("fdCount", -1) >= 0 and (w.get("fdSelectGlyphs") != w.get("numGlyphs") or w.get("fdMax", -1) >= w.get("fdCount")):
+                why.append("fdselect")
+            if not w.get("privateOk"):
+                why.append("private")
+        parts.append("cff=" + ",".join(why or ["structure"]))
     if x and x.get("has", {}).get("hmtx"):
         need = 4 * x["nHM"] + 2 * (x["numGlyphs"] - x["nHM"])
         ex = x["hmtxLen"] - need
@@ -98,6 +162,83 @@ def _detail_key(ev, violated=()):
     if "LsbOK" in violated:
         parts.append("lsb!=xMin")
     return ",".join(parts)
+
+
+def _blank_cross(op):
+    """A table set with no tables: satisfies every clause vacuously; the hand-written plants fill in one aspect."""
+    has = {k: False for k in ("maxp", "hhea", "hmtx", "head", "loca", "glyf", "cff", "cmap", "post")}
+    return {"has": has, "numGlyphs": -1, "nHM": -1, "hmtxLen": -1, "locFormat": -1, "locaLen": -1, "locaMonotone": True,
+            "locaLast": -1, "glyfLen": -1, "maxCompId": -1, "glyphsParse": True, "cffCharstrings": -1, "cmapParses": True,
+            "cmapMaxGid": -1, "postVersion": [0, 0], "postLen": -1, "built": {"hmtx": False, "loca": False, "glyf": False},
+            "glyphClasses": [], "glyfWalked": False, "headLsbBit": False, "lsbMismatch": -1, "srcLsbClean": False,
+            "reload": {"tried": False, "ok": False, "advances": -1, "outlines": -1, "why": ""}, "op": op, "derived": [],
+            "counts": {"hasVhea": False, "hasVmtx": False, "nVM": -1, "vmtxLen": -1, "postNumGlyphs": -1, "srcVmtxOk": False,
+                       "srcPostOk": False},
+            "cffw": {"walked": False, "why": "absent", "indexes": [], "numGlyphs": -1, "charsetOk": True, "charset": "none",
+                     "fdSelectGlyphs": -1, "fdMax": -1, "fdCount": -1, "privateOk": True}}
+
+
+def _d(name, rel, field, measured, src_field, src_measured, src_has=True):
+    return {"name": name, "rel": rel, "field": field, "measured": measured, "has": True, "srcHas": src_has,
+            "srcField": src_field, "srcMeasured": src_measured}
+
+
+def _cffw(**kw):
+    w = {"walked": True, "why": "", "indexes": [{"name": "name", "count": 1, "offSize": 1, "first": 1, "last": 9, "mono": True,
+                                                  "inside": True, "dataLen": 8}],
+         "numGlyphs": 6, "charsetOk": True, "charset": "format0", "fdSelectGlyphs": -1, "fdMax": -1, "fdCount": -1,
+         "privateOk": True}
+    w.update(kw)
+    return w
+
+
+def _with_cff(x, **kw):
+    x["has"]["cff"] = True
+    x["has"]["maxp"] = True
+    x["numGlyphs"] = 6
+    x["cffCharstrings"] = 6
+    x["cffw"] = _cffw(**kw)
+
+
+_BAD_INDEX = {"name": "charstrings", "count": 3, "offSize": 1, "first": 1, "last": 0, "mono": False, "inside": False, "dataLen": 0}
+
+# (case name "selftest-reject:<clause>:<what>" | "selftest-accept:<what>", operation, edit of a blank table set)
+_HAND_PLANTS = [
+    ("selftest-reject:DerivedOK:instance-advanceWidthMax-stale", "instance",
+     lambda x: x.update(derived=[_d("hhea.advanceWidthMax", "max", 619, 612, 619, 619)])),
+    ("selftest-reject:DerivedOK:instance-head-bbox-stale", "instance",
+     lambda x: (x["has"].update(glyf=True), x.update(derived=[_d("head.yMin", "min", -30, -31, -30, -30)]))),
+    ("selftest-reject:DerivedOK:subset-maxPoints-below-measured", "subset",
+     lambda x: x.update(derived=[_d("maxp.maxPoints", "max", 3, 4, 4, 4)])),
+    ("selftest-reject:DerivedOK:subset-minLsb-above-measured", "subset",
+     lambda x: x.update(derived=[_d("hhea.minLeftSideBearing", "min", -5, -20, -20, -20)])),
+    ("selftest-accept:subset-copied-maximum-is-a-bound", "subset",
+     lambda x: x.update(derived=[_d("hhea.advanceWidthMax", "max", 619, 540, 619, 619)])),
+    ("selftest-accept:subset-source-was-inconsistent", "subset",
+     lambda x: x.update(derived=[_d("maxp.maxPoints", "max", 3, 4, 3, 9)])),
+    ("selftest-accept:instance-copied-field-not-judged", "instance",
+     lambda x: x.update(derived=[_d("hhea.minLeftSideBearing", "min", -5, -20, -5, -5)])),
+    ("selftest-accept:instance-cff2-head-bbox-not-recomputed", "instance",
+     lambda x: x.update(derived=[_d("head.yMin", "min", -30, -31, -30, -30)])),
+    ("selftest-reject:VmtxOK:vmtx-too-short", "instance",
+     lambda x: (x["has"].update(maxp=True), x.update(numGlyphs=4),
+                x["counts"].update(hasVhea=True, hasVmtx=True, nVM=3, vmtxLen=10, srcVmtxOk=True))),
+    ("selftest-reject:PostOK:post2-glyph-count", "instance",
+     lambda x: (x["has"].update(maxp=True, post=True), x.update(numGlyphs=4, postVersion=[2, 0], postLen=60),
+                x["counts"].update(postNumGlyphs=5, srcPostOk=True))),
+    ("selftest-reject:CffStructOK:index-offsets-truncated", "subset",
+     lambda x: _with_cff(x, indexes=[_BAD_INDEX])),
+    ("selftest-reject:CffStructOK:predefined-charset-too-short", "subset",
+     lambda x: _with_cff(x, charsetOk=False, charset="ISOAdobe")),
+    ("selftest-reject:CffStructOK:fdselect-short", "subset",
+     lambda x: _with_cff(x, fdCount=1, fdSelectGlyphs=5, fdMax=0)),
+    ("selftest-reject:CffStructOK:fd-out-of-range", "prince-cff",
+     lambda x: _with_cff(x, fdCount=1, fdSelectGlyphs=6, fdMax=1)),
+    ("selftest-reject:CffStructOK:not-walkable", "prince-cff",
+     lambda x: _with_cff(x, walked=False, why="topdict")),
+    ("selftest-accept:cff-well-formed", "subset",
+     lambda x: _with_cff(x, fdCount=2, fdSelectGlyphs=6, fdMax=1)),
+]
 
 
 def run(ctx):
@@ -140,6 +281,7 @@ def run(ctx):
         good = next((e for e in events.values() if e["ev"] == "Written" and e["a"]["op"] == "subset"), None) or \
             next(e for e in events.values() if e["ev"] == "Written")
         planted_events = []
+        impossible = []
 
         def plant(base, name, edit):
             b = json.loads(json.dumps(base))
@@ -157,17 +299,17 @@ def run(ctx):
         # a WOFF2 table set whose head was upgraded to long: put head back to short (loca stays long)
         up = next((e for e in events.values() if e["ev"] == "Tables" and e["a"]["op"] == "woff2"
                    and e["o"]["cross"]["locFormat"] == 1 and e["o"]["cross"]["built"]["loca"]), None)
-        if up is None:
-            raise vlib.ToolError("no WOFF2 table set with an upgraded (long) loca in the trace: self-check impossible")
-
         def ed_head(b):
             b["o"]["cross"]["locFormat"] = 0
-        plant(up, "selftest-head-short-loca-long", ed_head)
+        if up is None:
+            impossible.append("no WOFF2 table set with an upgraded (long) loca in the trace")
+        else:
+            plant(up, "selftest-head-short-loca-long", ed_head)
         # an instance with a composite class: announce word arguments where bytes were read
         inst = next((e for e in events.values() if e["ev"] == "Written" and e["a"]["op"] == "instance"
                      and any(c["kind"] == "composite" and c["ok"] for c in e["o"]["cross"]["glyphClasses"])), None)
         if inst is None:
-            raise vlib.ToolError("no instance with a composite glyph in the trace: self-check impossible")
+            impossible.append("no instance with a composite glyph in the trace")
 
         def ed_words(b):
             c = next(c for c in b["o"]["cross"]["glyphClasses"] if c["kind"] == "composite" and c["ok"])
@@ -189,11 +331,19 @@ def run(ctx):
         def ed_slack(b):
             c = b["o"]["cross"]["glyphClasses"][0]
             c["len"] = c["used"] + 4
-        plant(inst, "selftest-composite-width", ed_words)
-        plant(inst, "selftest-composite-short", ed_short)
-        plant(inst, "selftest-composite-instr", ed_instr)
-        plant(inst, "selftest-composite-eof", ed_eof)
-        plant(inst, "selftest-record-slack", ed_slack)
+        if inst is not None:
+            plant(inst, "selftest-composite-width", ed_words)
+            plant(inst, "selftest-composite-short", ed_short)
+            plant(inst, "selftest-composite-instr", ed_instr)
+            plant(inst, "selftest-composite-eof", ed_eof)
+            plant(inst, "selftest-record-slack", ed_slack)
+        # hand-written table sets (nothing of allsorts' output in them) for the clauses on derived fields, vertical
+        # metrics and the CFF structure; `accept-*` are negative controls the judge must NOT flag
+        for name, op, edit in _HAND_PLANTS:
+            x = _blank_cross(op)
+            edit(x)
+            planted_events.append({"i": 10 ** 8 + len(planted_events), "case": name, "ev": "Tables",
+                                   "a": {"op": op, "args": {}}, "o": {"cross": x}})
         for b in planted_events:
             f.write(json.dumps(b, separators=(",", ":")) + "\n")
     total, mism = vlib.judge_trace_parallel(ctx, "Trace_SfntWrite", "Trace_SfntWrite.cfg", trace, "judge",
@@ -207,16 +357,38 @@ def run(ctx):
             continue
         ev = events[m["i"]]
         vio = sorted(m["violated"])
-        key = "%s|%s|%s" % (ev["ev"] + ":" + m["op"], "+".join(vio), _detail_key(ev, vio))
-        violations.append(Violation(key, "%s %s violates %s (%s)" % (m["op"], m["case"], vio, vlib.short(ev["a"], 200)),
-                                    {"event": ev, "violated": vio}))
+        # one violation per failing derived-field class (so that a known finding on one field hides only itself),
+        # one for the remaining clauses together (they are usually consequences of one another)
+        groups = []
+        if "DerivedOK" in vio:
+            for c in _derived_classes(ev["o"].get("cross", {}), m.get("derived") or ["?"]):
+                groups.append((["DerivedOK"], dict(m, derived_classes=[c])))
+        rest = [c for c in vio if c != "DerivedOK"]
+        if rest:
+            groups.append((rest, m))
+        for clauses, mm in groups:
+            key = "%s|%s|%s" % (ev["ev"] + ":" + m["op"], "+".join(clauses), _detail_key(ev, clauses, mm))
+            violations.append(Violation(key, "%s %s violates %s (%s)" % (m["op"], m["case"], clauses, vlib.short(ev["a"], 200)),
+                                        {"event": ev, "violated": clauses}))
     expect_planted = {"selftest-corrupt-sum": "ChecksumsOK", "selftest-corrupt-align": "LayoutOK",
                       "selftest-head-short-loca-long": "LocaOK", "selftest-composite-width": "GlyphsOK",
                       "selftest-composite-short": "GlyphsOK", "selftest-composite-instr": "GlyphsOK",
                       "selftest-composite-eof": "GlyphsOK", "selftest-record-slack": "GlyphsOK"}
+    planted_names = {b["case"] for b in planted_events}
+    expect_planted = {c: v for c, v in expect_planted.items() if c in planted_names}
+    expect_planted.update({n: n.split(":")[1] for n, _, _ in _HAND_PLANTS if n.startswith("selftest-reject:")})
     missed = [c for c, clause in expect_planted.items() if clause not in planted.get(c, set())]
-    if missed:
-        raise vlib.ToolError("binding self-check failed: planted corruptions %s accepted; judge said %s" % (missed, planted))
+    wrongly = [n for n, _, _ in _HAND_PLANTS if n.startswith("selftest-accept:") and planted.get(n)]
+    selfcheck_error = None
+    if missed or wrongly:
+        selfcheck_error = "binding self-check failed: planted corruptions %s accepted, controls %s rejected; judge said %s" % (
+            missed, wrongly, planted)
+    elif impossible:
+        selfcheck_error = "binding self-check impossible: %s" % impossible
+    if selfcheck_error and not violations:
+        raise vlib.ToolError(selfcheck_error)
+    if selfcheck_error:
+        ctx.note(selfcheck_error + " (violations present: reported first)")
     # vacuity: every family of size- / shape-dependent behaviour was exercised by a judged output.
     # (reported after the violations: a broken writer may be the very reason a family is missing)
     fam = rec.get("families", {})
@@ -246,7 +418,8 @@ def run(ctx):
         "recorded_panics_not_judged_here": rec.get("panics", 0),
         "panic_samples": rec.get("panic_samples", []),
         "events_judged": total,
-        "binding_selfcheck": "rejected: " + ", ".join(sorted(expect_planted)),
+        "binding_selfcheck": "rejected: " + ", ".join(sorted(expect_planted)) + "; accepted controls: " +
+                             ", ".join(n for n, _, _ in _HAND_PLANTS if n.startswith("selftest-accept:")),
         "exhaustive": True,
         "explanation": "exhaustive over the FontBuilder model (%s); repository fonts sampled by seed (quick) or all (thorough)" % cfg,
     }
